@@ -34,6 +34,10 @@ MULTI = ["CC(=O)N.[OH-].O>>CC(=O)O", "CC(=O)NC.[OH-].O>>CC(=O)O", "CC(=O)N.O.Cl>
 HALOBOND = ["CC(=O)Cl.O.{x}>>CC(=O)O.{x}".format(x=x) for x in ("c1ccccc1I(Cl)Cl", "ICl", "IBr", "BrCl", "ClCl")] + \
            ["CCO.c1ccccc1I(Cl)Cl>>CCCl.O.c1ccccc1I"]
 
+CONTEXT = "CC(=O)O.CCO>>CC(=O)OCC"
+# N-H heteroaromatics: the mapped aromatic spelling carries [nH:k]
+AROM_NH = ["CC(=O)Cl.c1cc[nH]c1>>CC(=O)n1cccc1", "CC(=O)Cl.c1ccc2[nH]ccc2c1>>CC(=O)n1ccc2ccccc21", "c1cc[nH]c1>>c1cc[nH]c1"]
+
 _VOCAB = None
 
 
@@ -172,11 +176,19 @@ def job(rx):
     bad = []
     rows = []
     for i in range(0, len(vs), 25):
-        out = pipeline.run({"rxns": vs[i:i + 25]})
-        if out["rows"] is None or len(out["rows"]) != len(vs[i:i + 25]):
-            bad.append({"key": ["row-count"], "what": "variant batch of {} lost rows".format(rx), "var": vs[i]})
+        # every variant batch starts with an unrelated row that the rule stage completes on the product side, so that a
+        # variant is never the first row the stages see (loop state carried from one row to the next would show)
+        out = pipeline.run({"rxns": [CONTEXT] + vs[i:i + 25]})
+        if out["rows"] is None or len(out["rows"]) != len(vs[i:i + 25]) + 1:
+            culprit = vs[i]
+            for cand in vs[i:i + 25]:
+                o = pipeline.run({"rxns": [CONTEXT, cand]})
+                if o["rows"] is None or len(o["rows"]) != 2:
+                    culprit = cand
+                    break
+            bad.append({"key": ["row-count"], "what": "the spelling {} of {} gets no result row".format(culprit, rx), "var": culprit})
             return {"n": 0, "cd": True, "bad": bad}
-        rows.extend(out["rows"])
+        rows.extend(out["rows"][1:])
     same = templ = 0
     for v, row in zip(vs, rows):
         for key, what in compare(rx, b, v, row):
@@ -226,7 +238,7 @@ def run(tier, seed):
     # marker family: molecules that spell like the pipeline's placeholders on the product side
     # next to a reactant-side or product-side completion
     rxns = pf.dedupe(rxns + [l + ">>" + a + "." + b for l in MARKER_LEFT for a in MARKER_RIGHT for b in MARKER_RIGHT])
-    rxns = pf.dedupe(rxns + MULTI + HALOBOND)
+    rxns = pf.dedupe(rxns + MULTI + HALOBOND + AROM_NH)
     perm = 4 if tier == "thorough" else 3
     r = pmap("checks.c14:job", [(x, perm) for x in rxns], chunk=8, seed=seed, timeout=7200)
     n_cd = n_var = 0
@@ -268,6 +280,12 @@ def replay(v):
     if v.sub == "remove_aam-off":
         x = noaam_job(rx)
         return [Violation(v.sub, v.case, None, None, b["key"], b["what"]) for b in x["bad"] if b["key"] == v.key and b["var"] == var][:1]
-    b = pipeline.run({"rxns": [rx], "fresh": True})["rows"][0]
-    row = pipeline.run({"rxns": [var], "fresh": True})["rows"][0]
+    base = pipeline.run({"rxns": [rx], "fresh": True})["rows"]
+    out = pipeline.run({"rxns": [CONTEXT, var], "fresh": True})["rows"]
+    lost = not base or out is None or len(out) != 2
+    if v.key == ["row-count"]:
+        return [Violation("spelling", v.case, None, None, v.key, "no result row for " + var)] if lost else []
+    if lost:
+        return []
+    b, row = base[0], out[1]
     return [Violation("spelling", v.case, row, b, key, what) for key, what in compare(rx, b, var, row) if key == v.key]
